@@ -123,7 +123,7 @@ Definition sstep_core (w : sworld) (o : op) (cs : list N) : sworld * wout :=
   | OLazyExec _ => (w, WUnit)
   | OJoin k ms =>
       let '(e', j) := env_join (s_env w) (l_view (s_life w)) (eids_of (l_entities (s_life w))) (s_hs w) k ms in
-      (s_with_env w e', WJoin j)
+      (s_with_env w e', jout_wout j)
   | OCs c => let '(e', r) := env_csop (s_env w) (s_hs w) c in (s_with_env w e', cs_out r)
   | OBad => (w, WSkip)
   end.
